@@ -266,6 +266,50 @@ pub fn run(opts: &Opts, out: &mut Emitter) {
         emit(out, "corpus", a, b, c);
     }
 
+    // the same law one level up, where the reducer meets a value: a - b = a + (-b) for every pair of constant
+    // operands an amount can reduce to - nothing at all (`None`, the empty value of the IR), a number, an asset list
+    {
+        use tx3_tir::model::v1beta0 as tir;
+        use tx3_tir::reduce::Apply as _;
+        let tok = |n: i128| tir::AssetExpr { policy: tir::Expression::Bytes(P1.to_vec()), asset_name: tir::Expression::Bytes(b"TK1".to_vec()), amount: tir::Expression::Number(n) };
+        let ada = |n: i128| tir::AssetExpr { policy: tir::Expression::None, asset_name: tir::Expression::None, amount: tir::Expression::Number(n) };
+        let pool: Vec<(&str, tir::Expression)> = vec![
+            ("none", tir::Expression::None),
+            ("0", tir::Expression::Number(0)),
+            ("5", tir::Expression::Number(5)),
+            ("-3", tir::Expression::Number(-3)),
+            ("[]", tir::Expression::Assets(vec![])),
+            ("[ada 5]", tir::Expression::Assets(vec![ada(5)])),
+            ("[tok 2, ada -1]", tir::Expression::Assets(vec![tok(2), ada(-1)])),
+        ];
+        // what a reduced amount means: nothing, a number, or amounts per class (zeros immaterial)
+        let meaning = |e: tir::Expression| -> Value {
+            match guarded(|| e.reduce()) {
+                Ok(Ok(tir::Expression::None)) => json!({"ok": "empty"}),
+                Ok(Ok(tir::Expression::Number(n))) => json!({"ok": {"number": int(n)}}),
+                Ok(Ok(tir::Expression::Assets(xs))) => {
+                    let c = CanonicalAssets::from(xs);
+                    let mut entries: Vec<(String, String)> = c.iter().filter(|(_, v)| **v != 0).map(|(k, v)| (format!("{k:?}"), v.to_string())).collect();
+                    entries.sort();
+                    if entries.is_empty() { json!({"ok": "empty"}) } else { json!({"ok": {"assets": entries}}) }
+                }
+                Ok(Ok(other)) => json!({"ok": {"other": format!("{other:?}").chars().take(40).collect::<String>()}}),
+                Ok(Err(_)) => json!({"err": true}),
+                Err(site) => json!({"panic": site}),
+            }
+        };
+        for (an, a) in pool.iter() {
+            for (bn, b) in pool.iter() {
+                let lhs = tir::Expression::EvalBuiltIn(Box::new(tir::BuiltInOp::Sub(a.clone(), b.clone())));
+                let rhs = tir::Expression::EvalBuiltIn(Box::new(tir::BuiltInOp::Add(
+                    a.clone(),
+                    tir::Expression::EvalBuiltIn(Box::new(tir::BuiltInOp::Negate(b.clone()))),
+                )));
+                out.case("expr-law", || json!({"probe": "expr-law", "a": an, "b": bn, "obs": {"sub": meaning(lhs.clone()), "add_neg": meaning(rhs.clone())}}));
+            }
+        }
+    }
+
     // exhaustive small scope: every (a, b) over 3 classes with amounts -2..2, c random
     // (thorough: every (a, b, c))
     let amounts: Vec<i128> = vec![-2, -1, 0, 1, 2];
